@@ -246,7 +246,13 @@ def rule_d(ctx, raws):
     f = rw.func
     key = f'{f.fq}#{rw.kind}.{rw.slot}'
     if key in DETACH_EXCEPTIONS:
-      ctx.ob('C01.d', key, True, 'exempt: ' + DETACH_EXCEPTIONS[key], rw.loc)
+      ok = True
+      if rw.slot == '__delitem__' and f.name == '_on_change':
+        # the exemption is checked, not assumed: the sweep deletes only
+        # indices whose item compared equal to the MISSING marker
+        ok = c08.sweeps_only_placeholders(idx, f)
+      ctx.ob('C01.d', key, ok, 'exempt: ' + DETACH_EXCEPTIONS[key], rw.loc,
+             'the sweep can delete an element that is not a MISSING placeholder without detaching it')
       continue
     g = C.cfg_of(f.node)
     wn = [k for k in g.nodes if any(c is rw.call for c in k.calls())]
